@@ -60,3 +60,8 @@ Definition shape (p t i s : npos) : stree :=
    No call excludes T (the flags are TRANSLATED: ungroup_close / ungroup_open), so every role goes through the same map. *)
 Definition ungroup_pos (ls cs le e : Z) (r : role) (q : npos) : npos :=
   put_at ungroup_open ls (cs + 1) (-1) r (put_at ungroup_close le (e + 1) (-1) r q).
+
+(* removing the delimiters of a sequence T whose elements hug them: `(` at (ls, cs), first element from (ls, cs + 1), last element
+   (or its trailing comma) to (le, e), `)` at (le, e), T = (ls, cs, le, e + 1).  Flags TRANSLATED from _undelimit_node. *)
+Definition undelimit_pos (ls cs le e : Z) (r : role) (q : npos) : npos :=
+  put_at undelimit_open ls (cs + 1) (-1) r (put_at undelimit_close le (e + 1) (-1) r q).
